@@ -267,13 +267,7 @@ func runBalance(cx *CheckCtx, prop string) {
 	nCalls := 0
 	// the legs are decided once, on Token.transfer itself as the root: they then hold for every caller
 	if prop == "C01" {
-		rootM := &Method{C: c, ABI: "Token.transfer", GoName: "Token.transfer", Fn: tfn, NParams: len(tfn.Params)}
-		ra := cx.run(rootM)
-		tb := ra.tb
-		tc := &transferCall{a: ra, m: rootM, frame: tb.root, from: fnParam(tb, tfn, 2), to: fnParam(tb, tfn, 3),
-			amt: fnParam(tb, tfn, 4), details: fnParam(tb, tfn, 6)}
-		sortTransferEffects(tc)
-		checkTransferLegs(cx, tc, "balance.Token.transfer")
+		balanceLegs(cx)
 	}
 	for _, name := range balanceMutators {
 		m := cx.method("balance", name)
@@ -554,7 +548,8 @@ func checkTransferLegs(cx *CheckCtx, tc *transferCall, key string) {
 						continue
 					}
 					lenFrom := a.litLen(tc.from)
-					if !a.holdsAt(rs.In, a.eLit(tc.debitPut), a.eLit(tc.debitDel), -a.litEqC(lenFrom, 20)) {
+					// (a transfer of 0 may leave the sender's record alone: nothing to overwrite)
+					if !a.holdsAt(rs.In, a.eLit(tc.debitPut), a.eLit(tc.debitDel), -a.litEqC(lenFrom, 20), a.litEqC(tc.amt, 0)) {
 						okOrder = false
 						where = rs.Where(w)
 					}
@@ -711,6 +706,40 @@ func runC09(cx *CheckCtx) {
 				ok = isRec && k == tb.cat(tb.constBytes("a"), tc.from) && tb.field(v, "Parent") == tb.field(X, "Parent") && tb.field(v, "Until") == tb.field(X, "Until")
 			}
 		}
+		// a full debit removes the record: every exit that reports success has deleted a‖from unless
+		// from is not an account or the loaded balance differs from the amount (whatever the amount, 0 included)
+		if tc.debitDel != nil {
+			var eqLits []int32
+			for id := int32(1); id < int32(len(ra.lt.lits)); id++ {
+				l := ra.lt.lits[id]
+				if l.Kind != KEq {
+					continue
+				}
+				for _, pr := range [][2]*Term{{l.A, l.B}, {l.B, l.A}} {
+					if pr[0].Op == "field" && pr[0].Name == "Balance" && pr[1] == tc.amt {
+						if k, isRec := recordOf(tb, pr[0].Args[0]); isRec && k == tb.cat(tb.constBytes("a"), tc.from) {
+							eqLits = append(eqLits, -id)
+						}
+					}
+				}
+			}
+			okDel := len(eqLits) > 0
+			whereDel := tc.debitDel.Where(w)
+			for _, ex := range ra.Exits() {
+				if len(ex.Results) != 1 {
+					continue
+				}
+				if b, isC := ex.Results[0].BoolConst(); isC && !b {
+					continue // a refusal
+				}
+				q := append([]int32{ra.eLit(tc.debitDel), -ra.litEqC(ra.litLen(tc.from), 20)}, eqLits...)
+				if !ra.holdsAt(ex.State, q...) {
+					okDel = false
+					whereDel = exitPos(w, ex)
+				}
+			}
+			cx.decide(okDel, "lock-record", "balance.Token.transfer/full-debit-deletes", "a successful transfer of the whole loaded balance of an account deletes its record (for every amount, 0 included)", "a transfer of the whole balance can succeed without deleting the sender's record: an expired lock with nothing left (or a zero lock) keeps its record and is 'released' again by every later tick", whereDel)
+		}
 		cx.decide(ok, "lock-record", "balance.Token.transfer/debit-preserves", "a partial debit stores the loaded record with Until/Parent unchanged", "a partial debit (burn, transfer) of a lock account does not keep its Until/Parent: the remainder is never released at expiry", where)
 	}
 	// ---- D2: NewEpoch refund
@@ -817,4 +846,23 @@ func paramTerm(tb *TermBuilder, m *Method, name string) *Term {
 		}
 	}
 	return tb.mk("param", "?:"+name, 0)
+}
+
+// balanceLegs: the debit/credit leg rules of Token.transfer analysed as a root
+// (they hold for every caller). C01 owns them; C05 re-runs them because "debits
+// exactly fee·N and credits exactly fee to each node" is a statement about
+// these legs (an Alphabet node that owns a container pays itself).
+func balanceLegs(cx *CheckCtx) {
+	c := cx.contract("balance")
+	tfn := balanceTransferFn(cx)
+	if c == nil || tfn == nil {
+		return
+	}
+	rootM := &Method{C: c, ABI: "Token.transfer", GoName: "Token.transfer", Fn: tfn, NParams: len(tfn.Params)}
+	ra := cx.run(rootM)
+	tb := ra.tb
+	tc := &transferCall{a: ra, m: rootM, frame: tb.root, from: fnParam(tb, tfn, 2), to: fnParam(tb, tfn, 3),
+		amt: fnParam(tb, tfn, 4), details: fnParam(tb, tfn, 6)}
+	sortTransferEffects(tc)
+	checkTransferLegs(cx, tc, "balance.Token.transfer")
 }
